@@ -317,21 +317,19 @@ func onlyNilReturn(cc *ast.CaseClause) bool {
 
 // c17Lists: values returned/assigned under the case must be list-resolvable natively.
 func c17Lists(c *Ctx, r *Report, fn *ssa.Function, srv, nm string, listRes *types.Interface) {
+	// the carriers the list resolver walks itself before consulting an installed root
+	// resolver are derived from the list resolver on this run (C02.NATIVE's derivation)
+	natSet, anyKind, natSite := c.nativeListSetMemo()
 	nativeSlice := func(t types.Type) bool {
-		sl, ok := t.Underlying().(*types.Slice)
-		if !ok {
+		if _, ok := t.Underlying().(*types.Slice); !ok {
 			return false
 		}
-		if _, isNamed := t.(*types.Named); isNamed {
-			return false
+		if natSite == nil || anyKind {
+			return true
 		}
-		switch e := sl.Elem().Underlying().(type) {
-		case *types.Interface:
-			return e.NumMethods() == 0 && !isNamedType(sl.Elem())
-		case *types.Basic:
-			switch e.Kind() {
-			case types.String, types.Int, types.Int64, types.Bool, types.Float32, types.Float64:
-				return !isNamedType(sl.Elem())
+		for _, u := range natSet {
+			if types.Identical(t, u) {
+				return true
 			}
 		}
 		return false
